@@ -40,36 +40,38 @@ type StampV struct {
 
 // Fault kinds (fault plan values).
 const (
-	FErr         = "err"          // resolver returns (nil, error)
-	FValErr      = "valerr"       // resolver returns (value, error)
-	FPanicErr    = "panic_err"    // panic(error)
-	FPanicStr    = "panic_str"    // panic("string")
-	FPanicInt    = "panic_int"    // panic(42)
-	FNil         = "nil"          // returns nil
-	FTypedNil    = "typednil"     // returns (*Tok)(nil) / (*string)(nil)
-	FThunk       = "thunk"        // returns a thunk that yields the normal value
-	FThunkErr    = "thunk_err"    // thunk returns an error
-	FThunkPanic  = "thunk_panic"  // thunk panics
-	FThunkNil    = "thunk_nil"    // thunk returns nil
-	FThunkBad    = "thunk_badsig" // a func of the wrong signature
-	FWrongKind   = "wrongkind"    // a Go value of the wrong kind for the position
-	FNaN         = "nan"          // NaN for a numeric leaf
-	FBigInt      = "bigint"       // out-of-range integer for Int
-	FBadEnum     = "badenum"      // unknown internal enum value
-	FNotIter     = "notiter"      // non-iterable for a list position
-	FRTNil       = "rt_nil"       // ResolveType returns nil
-	FRTWrong     = "rt_wrong"     // ResolveType returns a non-possible object type
-	FRTPanic     = "rt_panic"     // ResolveType panics
-	FITFalse     = "it_false"     // IsTypeOf returns false
-	FITPanic     = "it_panic"     // IsTypeOf panics
-	FSerNil      = "ser_nil"      // custom scalar Serialize returns nil
-	FSerPanic    = "ser_panic"    // custom scalar Serialize panics
-	FHostile     = "hostile"      // resolver mutates the Args map it was handed
-	FErrMsg      = "errmsg:"      // prefix: resolver returns (nil, errors.New(rest))
-	FElemPanic   = "elem_panic"   // list of leaves: element 1 makes the leaf's Serialize panic
-	FElemThunk   = "elem_thunk"   // list: every element is a thunk yielding the normal element
-	FHostileVars = "hostile_vars" // resolver overwrites the entries of Info.VariableValues
-	FObserveCtx  = "observe"      // resolver returns ctx.Err() if the context is done
+	FErr         = "err"                // resolver returns (nil, error)
+	FValErr      = "valerr"             // resolver returns (value, error)
+	FPanicErr    = "panic_err"          // panic(error)
+	FPanicStr    = "panic_str"          // panic("string")
+	FPanicInt    = "panic_int"          // panic(42)
+	FNil         = "nil"                // returns nil
+	FTypedNil    = "typednil"           // returns (*Tok)(nil) / (*string)(nil)
+	FThunk       = "thunk"              // returns a thunk that yields the normal value
+	FThunkErr    = "thunk_err"          // thunk returns an error
+	FThunkPanic  = "thunk_panic"        // thunk panics
+	FThunkNil    = "thunk_nil"          // thunk returns nil
+	FThunkBad    = "thunk_badsig"       // a func of the wrong signature
+	FWrongKind   = "wrongkind"          // a Go value of the wrong kind for the position
+	FNaN         = "nan"                // NaN for a numeric leaf
+	FBigInt      = "bigint"             // out-of-range integer for Int
+	FBigIntStr   = "bigint_str"         // a decimal string outside the 32-bit range
+	FBadEnum     = "badenum"            // unknown internal enum value
+	FNotIter     = "notiter"            // non-iterable for a list position
+	FRTNil       = "rt_nil"             // ResolveType returns nil
+	FRTWrong     = "rt_wrong"           // ResolveType returns a non-possible object type
+	FRTPanic     = "rt_panic"           // ResolveType panics
+	FITFalse     = "it_false"           // IsTypeOf returns false
+	FITPanic     = "it_panic"           // IsTypeOf panics
+	FSerNil      = "ser_nil"            // custom scalar Serialize returns nil
+	FSerPanic    = "ser_panic"          // custom scalar Serialize panics
+	FHostile     = "hostile"            // resolver mutates the Args map it was handed
+	FErrMsg      = "errmsg:"            // prefix: resolver returns (nil, errors.New(rest))
+	FElemPanic   = "elem_panic"         // list of leaves: element 1 makes the leaf's Serialize panic
+	FElemThunk   = "elem_thunk"         // list: every element is a thunk yielding the normal element
+	FBlockCancel = "block_until_cancel" // resolver waits for the request context to be done, then fails with its error
+	FHostileVars = "hostile_vars"       // resolver overwrites the entries of Info.VariableValues
+	FObserveCtx  = "observe"            // resolver returns ctx.Err() if the context is done
 )
 
 // ReqCtx is the per-request instrumentation state, carried by the context.
@@ -95,6 +97,7 @@ type ReqCtx struct {
 	Bad     []string          // parameter-accuracy violations found locally (C20)
 	FiredAt []string          // "<kind>@<path>" of every fault that fired, in order
 	Types   map[string]string // declared return type of every resolved field position
+	TypeAt  map[string]string // runtime object type of every object position that had a field resolved
 	ArgLog  map[string]string
 	Check   func(rc *ReqCtx, p *graphql.ResolveParams, path string) // optional extra check (C20)
 	Ext     *ExtRun                                                 // when set, resolver events are mirrored into the extension log
@@ -177,6 +180,7 @@ type World struct {
 	Obj    map[string]*graphql.Object
 	Node   *graphql.Interface
 	U      *graphql.Union
+	Solo   *graphql.Union // an abstract type with exactly one possible type
 	Kind   *graphql.Enum
 	Stamp  *graphql.Scalar
 	// SubSource is returned by the Subscribe resolver of Subscription.events
@@ -361,6 +365,7 @@ func NewWorld(id string, exts ...graphql.Extension) *World {
 		fs["items"] = &graphql.Field{Type: graphql.NewList(graphql.NewNonNull(item)), Args: graphql.FieldConfigArgument{"n": &graphql.ArgumentConfig{Type: graphql.Int, DefaultValue: 2}}}
 		fs["u"] = &graphql.Field{Type: w.U, Args: graphql.FieldConfigArgument{"as": &graphql.ArgumentConfig{Type: graphql.String}}}
 		fs["leafy"] = &graphql.Field{Type: leafy}
+		fs["solo"] = &graphql.Field{Type: w.Solo}
 		return fs
 	})
 	mkObj("B", nodeIf, true, func() graphql.Fields {
@@ -379,6 +384,7 @@ func NewWorld(id string, exts ...graphql.Extension) *World {
 		fs["cOnly"] = &graphql.Field{Type: graphql.Float}
 		fs["matrix"] = &graphql.Field{Type: graphql.NewList(graphql.NewList(graphql.NewNonNull(graphql.Int)))}
 		fs["deep"] = &graphql.Field{Type: deep}
+		fs["solo"] = &graphql.Field{Type: w.Solo}
 		return fs
 	})
 	w.U = graphql.NewUnion(graphql.UnionConfig{
@@ -386,6 +392,11 @@ func NewWorld(id string, exts ...graphql.Extension) *World {
 		Types: []*graphql.Object{w.Obj["A"], w.Obj["B"]},
 		// no ResolveType: the library's default IsTypeOf scan is used
 	})
+	w.Solo = graphql.NewUnion(graphql.UnionConfig{
+		Name:  "Solo",
+		Types: []*graphql.Object{w.Obj["B"]},
+	})
+	w.Possible["Solo"] = []string{"B"}
 	w.Possible["Node"] = []string{"A", "B", "C"}
 	w.Possible["U"] = []string{"A", "B"}
 
@@ -461,6 +472,7 @@ func NewWorld(id string, exts ...graphql.Extension) *World {
 			"node":     &graphql.Field{Type: w.Node, Args: graphql.FieldConfigArgument{"as": &graphql.ArgumentConfig{Type: graphql.String}, "id": &graphql.ArgumentConfig{Type: graphql.ID}}},
 			"nodes":    &graphql.Field{Type: graphql.NewList(w.Node), Args: graphql.FieldConfigArgument{"n": &graphql.ArgumentConfig{Type: graphql.Int, DefaultValue: 2}, "as": &graphql.ArgumentConfig{Type: graphql.String}}},
 			"u":        &graphql.Field{Type: w.U, Args: graphql.FieldConfigArgument{"as": &graphql.ArgumentConfig{Type: graphql.String}}},
+			"solo":     &graphql.Field{Type: w.Solo},
 			"a":        &graphql.Field{Type: w.Obj["A"]},
 			"b":        &graphql.Field{Type: w.Obj["B"]},
 			"c":        &graphql.Field{Type: w.Obj["C"]},
@@ -505,7 +517,7 @@ func NewWorld(id string, exts ...graphql.Extension) *World {
 			return graphql.Fields{
 				"events": &graphql.Field{
 					Type:    w.Obj["B"],
-					Args:    graphql.FieldConfigArgument{"n": &graphql.ArgumentConfig{Type: graphql.Int}},
+					Args:    graphql.FieldConfigArgument{"n": &graphql.ArgumentConfig{Type: graphql.Int}, "k": &graphql.ArgumentConfig{Type: w.Kind}, "st": &graphql.ArgumentConfig{Type: w.Stamp}},
 					Resolve: w.resolver("Subscription", "events"),
 					Subscribe: func(p graphql.ResolveParams) (interface{}, error) {
 						if w.SubSource == nil {
@@ -590,6 +602,12 @@ func (w *World) resolverInner(coord string) graphql.FieldResolveFn {
 			rc.Types = map[string]string{}
 		}
 		rc.Types[path] = p.Info.ReturnType.String()
+		if rc.TypeAt == nil {
+			rc.TypeAt = map[string]string{}
+		}
+		if p.Info.ParentType != nil {
+			rc.TypeAt[parentPath(path)] = p.Info.ParentType.Name()
+		}
 		rc.Log = append(rc.Log, "R+"+path)
 		rc.mu.Unlock()
 		if rc.Check != nil {
@@ -668,6 +686,8 @@ func (w *World) resolverInner(coord string) graphql.FieldResolveFn {
 			return math.NaN(), nil
 		case FBigInt:
 			return int64(1) << 40, nil
+		case FBigIntStr:
+			return "9876504321", nil
 		case FBadEnum:
 			return "no-such-internal-value", nil
 		case FNotIter:
@@ -708,6 +728,9 @@ func (w *World) resolverInner(coord string) graphql.FieldResolveFn {
 				}
 			}
 			return v, nil
+		case FBlockCancel:
+			<-p.Context.Done()
+			return nil, p.Context.Err()
 		case FHostileVars:
 			v := val()
 			for k := range p.Info.VariableValues {
@@ -986,4 +1009,9 @@ func plainRecTagged() interface{} {
 		C string `json:"tag,omitempty"`
 	}
 	return rec{A: "tagged-name", B: 5, C: "tagged-tag"}
+}
+
+// NewWorldPossible returns the abstract-type table of the simulated schema.
+func NewWorldPossible() map[string][]string {
+	return map[string][]string{"Node": {"A", "B", "C"}, "U": {"A", "B"}, "Solo": {"B"}}
 }
